@@ -373,9 +373,10 @@ def run(chk):
     sub = type(chk)(chk.pid, chk.tier)
     sub._known = []
     c03.r3(sub, prog)
+    c03.r5_every_count_guarded(sub, prog)       # list elements from file / environment are not counted either
     eng = c04.make_engine(prog)
     c04.r1_r3(sub, prog, eng)
     for o in sub.obligations:
-        if o['rule'] in ('R3',) or 'ArgString2Array' in o['function'] or 'ReadMode' in o['function'] \
+        if o['rule'] in ('R3', 'R5') or 'ArgString2Array' in o['function'] or 'ReadMode' in o['function'] \
                 or 'read-mode' in o['what'] or 'ignore_cardinality' in o['what']:
             chk.check(o['status'] == 'held', 'R3', o['function'], o['what'], o['where'], o.get('detail', ''))
